@@ -179,7 +179,19 @@ static long el_off(const DT* d, long k)
 {
   return d->kind == K_VEC ? (k / 2) * 12 + (k % 2) * 8 : k * d->ext;
 }
+/* Send buffers are pre-filled with another byte than receive buffers, so that an algorithm that copies whole extents
+ * (holes, gaps between blocks) from a send buffer into a receive buffer is seen. */
+#define SFILL 0x5A
+static void balloc_fill(Buf* b, long bytes, int fill);
 static void balloc(Buf* b, long bytes)
+{
+  balloc_fill(b, bytes, FILL);
+}
+static void salloc(Buf* b, long bytes)
+{
+  balloc_fill(b, bytes, SFILL);
+}
+static void balloc_fill(Buf* b, long bytes, int fill)
 {
   b->bytes = bytes;
   b->raw   = (unsigned char*)malloc(bytes + 2 * GUARD);
@@ -189,8 +201,8 @@ static void balloc(Buf* b, long bytes)
     printf("HARNESS out of memory\n");
     _exit(99);
   }
-  memset(b->raw, FILL, bytes + 2 * GUARD);
-  memset(b->exp, FILL, bytes + 2 * GUARD);
+  memset(b->raw, fill, bytes + 2 * GUARD);
+  memset(b->exp, fill, bytes + 2 * GUARD);
   b->body = b->raw + GUARD;
 }
 static void bfree(Buf* b)
@@ -374,7 +386,7 @@ static void prepare(const Case* c, Slot* S, unsigned vseed)
   } else if (is(c, "gather") || is(c, "allgather")) {
     int isroot = is(c, "allgather") || me == root;
     if (!(ip && isroot)) {
-      balloc(&S->s, n * d->ext);
+      salloc(&S->s, n * d->ext);
       fill_block(c, &S->s, 0, n, vseed, me, 0, 0, 3);
     }
     balloc(&S->r, (long)np * n * d->ext);
@@ -391,7 +403,7 @@ static void prepare(const Case* c, Slot* S, unsigned vseed)
       S->rcnt[i] = cnt1(c, i);
     long span = mkdisp(c, S->rcnt, S->rdsp);
     if (!(ip && isroot)) {
-      balloc(&S->s, S->rcnt[me] * d->ext);
+      salloc(&S->s, S->rcnt[me] * d->ext);
       fill_block(c, &S->s, 0, S->rcnt[me], vseed, me, 0, 0, 3);
     }
     balloc(&S->r, span * d->ext);
@@ -401,7 +413,7 @@ static void prepare(const Case* c, Slot* S, unsigned vseed)
         fill_block(c, &S->r, S->rdsp[r], S->rcnt[r], vseed, r, 0, 0, (ip && r == me) ? 3 : 2);
   } else if (is(c, "scatter")) {
     if (me == root) {
-      balloc(&S->s, (long)np * n * d->ext);
+      salloc(&S->s, (long)np * n * d->ext);
       for (int r = 0; r < np; r++)
         fill_block(c, &S->s, (long)r * n, n, vseed, root, r, 0, 3);
     }
@@ -416,7 +428,7 @@ static void prepare(const Case* c, Slot* S, unsigned vseed)
       S->scnt[i] = cnt1(c, i);
     long span = mkdisp(c, S->scnt, S->sdsp);
     if (me == root) {
-      balloc(&S->s, span * d->ext);
+      salloc(&S->s, span * d->ext);
       for (int r = 0; r < np; r++)
         fill_block(c, &S->s, S->sdsp[r], S->scnt[r], vseed, root, r, 0, 3);
     }
@@ -427,7 +439,7 @@ static void prepare(const Case* c, Slot* S, unsigned vseed)
   } else if (is(c, "alltoall")) {
     balloc(&S->r, (long)np * n * d->ext);
     if (!ip) {
-      balloc(&S->s, (long)np * n * d->ext);
+      salloc(&S->s, (long)np * n * d->ext);
       for (int r = 0; r < np; r++)
         fill_block(c, &S->s, (long)r * n, n, vseed, me, r, 0, 3);
     } else {
@@ -447,7 +459,7 @@ static void prepare(const Case* c, Slot* S, unsigned vseed)
     }
     long sspan = mkdisp(c, S->scnt, S->sdsp);
     long rspan = mkdisp(c, S->rcnt, S->rdsp);
-    balloc(&S->s, sspan * d->ext);
+    salloc(&S->s, sspan * d->ext);
     balloc(&S->r, rspan * d->ext);
     for (int r = 0; r < np; r++) {
       fill_block(c, &S->s, S->sdsp[r], S->scnt[r], vseed, me, r, 0, 3);
@@ -472,7 +484,7 @@ static void prepare(const Case* c, Slot* S, unsigned vseed)
       S->rdsp[i]   = (int)rat;
       rat += (w_recv_vec(i, me) ? (Lr / 2) * 12 : Lr * 4) + 4;
     }
-    balloc(&S->s, sat);
+    salloc(&S->s, sat);
     balloc(&S->r, rat);
     DT dv = {K_VEC, vec_t, 2, 12};
     for (int i = 0; i < np; i++) {
@@ -489,7 +501,7 @@ static void prepare(const Case* c, Slot* S, unsigned vseed)
     if (ip && isroot)
       fill_block(c, &S->r, 0, n, vseed, me, 0, 0, 1);
     else {
-      balloc(&S->s, n * d->ext);
+      salloc(&S->s, n * d->ext);
       fill_block(c, &S->s, 0, n, vseed, me, 0, 0, 3);
     }
     if (isroot)
@@ -513,7 +525,7 @@ static void prepare(const Case* c, Slot* S, unsigned vseed)
       memcpy(S->r.exp, S->r.raw, S->r.bytes + 2 * GUARD);
       S->r.loose = 1;
     } else {
-      balloc(&S->s, tot * d->ext);
+      salloc(&S->s, tot * d->ext);
       fill_block(c, &S->s, 0, (int)tot, vseed, me, 0, 0, 3);
       balloc(&S->r, S->rcnt[me] * d->ext);
     }
